@@ -16,6 +16,7 @@ import (
 	"github.com/nspcc-dev/neo-go/pkg/smartcontract/manifest"
 	"github.com/nspcc-dev/neo-go/pkg/smartcontract/nef"
 	"github.com/nspcc-dev/neo-go/pkg/util"
+	"github.com/nspcc-dev/neofs-contract/contracts"
 )
 
 func init() {
@@ -109,9 +110,78 @@ func CompileDir(dir, nameOverride string) *Compiled {
 	return c
 }
 
-// Contract compiles contracts/<name> of the working tree.
-func Contract(name string) *Compiled {
-	return CompileDir(filepath.Join(RepoDir(), "contracts", name), "")
+// Contract returns contracts/<name>: compiled from the sources of the working
+// tree, or - when VERIF_EMBEDDED is set - the executable and manifest shipped in
+// the repository's Go package (what deploy.Deploy hands to the chain).
+func Contract(name string) *Compiled { return ContractNamed(name, "") }
+
+// ContractNamed is Contract with the manifest name replaced (several
+// instances of one contract deployed by the same account need distinct names).
+func ContractNamed(name, manifestName string) *Compiled {
+	if os.Getenv("VERIF_EMBEDDED") != "" {
+		return Embedded(name, manifestName)
+	}
+	return CompileDir(filepath.Join(RepoDir(), "contracts", name), manifestName)
+}
+
+var embeddedOrderFS = []string{"nns", "proxy", "audit", "netmap", "balance", "reputation", "neofsid", "container", "alphabet"}
+var embeddedOrderMain = []string{"neofs", "processing"}
+
+// ManifestNames maps directory names to manifest names.
+var ManifestNames = map[string]string{
+	"alphabet": "NeoFS Alphabet", "audit": "NeoFS Audit", "balance": "NeoFS Balance", "container": "NeoFS Container",
+	"neofs": "NeoFS", "neofsid": "NeoFS ID", "netmap": "NeoFS Netmap", "nns": "NameService",
+	"processing": "NeoFS Multi Signature Processing", "proxy": "NeoFS Notary Proxy", "reputation": "NeoFS Reputation",
+}
+
+// EmbeddedFSNames lists the names GetFS is documented to return, in order.
+func EmbeddedFSNames() []string { return append([]string{}, embeddedOrderFS...) }
+
+// Embedded wraps the executable shipped in package contracts.
+func Embedded(name, manifestName string) *Compiled {
+	compileMu.Lock()
+	defer compileMu.Unlock()
+	key := "embedded|" + name + "|" + manifestName
+	if c, ok := compileCache[key]; ok {
+		return c
+	}
+	var list []contracts.Contract
+	var names []string
+	var err error
+	if name == "neofs" || name == "processing" {
+		list, err = contracts.GetMain()
+		names = embeddedOrderMain
+	} else {
+		list, err = contracts.GetFS()
+		names = embeddedOrderFS
+	}
+	if err != nil {
+		panic(HarnessError{Msg: fmt.Sprintf("chainkit: embedded contracts: %v (%d)", err, len(list))})
+	}
+	_ = names
+	for i := range list {
+		// matched by manifest name, not by position: the order is what C15 checks
+		if list[i].Manifest.Name != ManifestNames[name] {
+			continue
+		}
+		ne := list[i].NEF
+		m := list[i].Manifest
+		if manifestName != "" {
+			m.Name = manifestName
+		}
+		nb, err := ne.Bytes()
+		if err != nil {
+			panic(HarnessError{Msg: "chainkit: embedded NEF: " + err.Error()})
+		}
+		mb, err := json.Marshal(&m)
+		if err != nil {
+			panic(err)
+		}
+		c := &Compiled{NEF: &ne, Manifest: &m, NEFBytes: nb, ManBytes: mb}
+		compileCache[key] = c
+		return c
+	}
+	panic(HarnessError{Msg: "chainkit: no embedded contract " + name})
 }
 
 // Probe compiles harness/probes/<name>; manifestName lets one source give
